@@ -30,6 +30,7 @@ ASSUMPTIONS = [
     "Dry-run and real-run outcomes are compared by exception class.",
     "Parallel synchronisation is compared on options without conflicts raised (strategy given or no conflicts).",
 ]
+MANIFEST = {"technique": 'runtime monitoring: FS-call monitor (P-readonly on both trees in dry runs), dry-vs-real differential runs, parallel-vs-sequential with switch-interval stress', "engine": 'fs-call monitor (audit hook)'}
 TIME_CAP = {"quick": 80, "thorough": 1500}
 
 
